@@ -573,6 +573,7 @@ class StmtMixin:
         self.assume_inv(spec)
         self.log.append(("LOOP", {"idx": idx, "mode": mode}, None))
         self.iter_log_start = len(self.log)
+        self.iter_envs = self.snapshot_envs()
         if mode == 0:
             self.pc.append(i.t < n)
             self.bind_target(s.target, mapper(i, self.list_get(it_snapshot, i.t)))
